@@ -75,6 +75,31 @@ fn single_observation(kind: u8, unit_sel: u8) {
     assert!(ok);
     let (int_n, flt_n) = unsafe { (stubs::INT_N, stubs::FLT_N) };
     let is_usable = usable(obs);
+    if cfg!(verif_native) {
+        // native replay of a counterexample: the recording stubs are inactive, so the numbers are read back from the
+        // real output with a JSON parser
+        let parsed = native_parse_member(b.fields.as_str(), pre).expect("fields buffer is not valid JSON");
+        let want_value = match kind {
+            0 => v_u as f64,
+            1 => clamp_model(v_f),
+            _ => clamp_model(if occ == 0 { 0.0 } else { total / (occ as f64) }),
+        };
+        let want_count = if kind == 2 { occ.saturating_mul(m) } else { m };
+        match parsed {
+            None => assert!(!is_usable && b.metrics.is_empty(), "a usable observation must be emitted"),
+            Some((values, counts)) => {
+                assert!(is_usable, "an unusable observation must not be emitted");
+                assert!(values.len() == 1 && values[0] == want_value, "emitted value is the entry's");
+                if mult.is_some() || kind == 2 {
+                    assert!(counts.len() == 1 && counts[0] == want_count, "emitted count is occurrences x multiplicity");
+                } else {
+                    assert!(counts.is_empty(), "scalar form without sampling");
+                }
+                assert!(b.metrics.is_empty() == (flag_sel == 2), "declared unless no-metric");
+            }
+        }
+        return;
+    }
     kani::cover!(is_usable && mult.is_some() && flag_sel == 1, "sampled, high-resolution metric");
     kani::cover!(kind == 0 || !is_usable, "unusable observation (kinds that can be unusable)");
     kani::cover!(kind != 2 || occ == 0, "zero occurrences (repeated kind)");
